@@ -82,13 +82,18 @@ def run(tier):
     if r.violated:
         v.violation("model: the filter model keeps irrelevant records (%s)" % r.violated, {"tlc_output": r.out[-3000:]})
     v.exhaustive = True
-    r = tlc("MCValidate", None, cfg_text=CFG % dict(recs=2 if tier == "quick" else 3, gen="Inv_Gen"), timeout=3400, xmx="16g")
+    r = tlc("MCValidate", None, cfg_text=CFG % dict(recs=3, gen="Inv_Gen"), timeout=3400, xmx="16g")
     vlib.require_ok(r, "MCValidate gen")
     cases = []
     for rep in r.tagged("GENREPLY"):
-        for q in QUESTIONS[:3]:
-            for mc in (1, 2, 3):
-                cases.append({"q": q, "mc": mc, "reply": rep})
+        n = len(rep["answers"]) + len(rep["authority"]) + len(rep["additional"])
+        if n <= 2 or tier == "thorough":
+            for q in QUESTIONS[:3]:
+                for mc in (1, 2, 3):
+                    cases.append({"q": q, "mc": mc, "reply": rep})
+        else:
+            for mc in (1, 2):
+                cases.append({"q": QUESTIONS[0], "mc": mc, "reply": rep})
     v.notes["gen_cases"] = len(cases)
     validate_filter(v, wd, "gen", cases)
     # random larger replies
